@@ -21,7 +21,10 @@ The ledger part of the exchange (balances, fills, ids) is the C08 model `MockExc
    the worker tasks that make the calls,
 3. the abstract specification `Spec.*` (second half), written from the documented intent: a call is
    answered by the exchange from the requests it has seen before, `latency` after it has seen the
-   call; the account stream is the sequence of fill notifications.
+   call; the account stream is the sequence of fill notifications. The two `namespace Fast` blocks
+   inside it are NOT specification: they are one-pass executables of `SSys.answers` / `SSys.finish`,
+   proved equal to them (`Fast.answers_eq_fast`, `Fast.finish_eq_fast`) and tagged `@[csimp]`, so that
+   only COMPILED code (the driver's `spec` mode) runs them.
 
 Identifiers are positions / numbers as in the C08 model; `ClientOrderId`, `StrategyId`, `OrderId`
 are the `Nat` inside their names; a `FnvHashMap<ClientOrderId, V>` is the list of its values sorted
@@ -671,6 +674,186 @@ answer after the first `k` requests. -/
 def SSys.answers (s : SSys) : List (Seen × Answer) :=
   s.seen.zipIdx.map fun ek => (ek.1, answer s.cfg ((s.seen.take ek.2).map fun e => (e.t, e.rq)) ek.1.t ek.1.rq)
 
+/-! ### Compiled-code twin of `SSys.answers` (no part of the specification)
+
+`SSys.answers` is declarative: the answer to the `k`-th request is computed from the first `k` requests from
+scratch. The executable below (`Fast.answersFast`) makes ONE pass carrying the accepted orders and what
+they have debited per asset; `Fast.answers_eq_fast` proves it equal to `SSys.answers` and is tagged `@[csimp]`,
+so compiled code (the `spec` mode of the driver) runs the one-pass version while every definition and theorem
+keeps speaking about `SSys.answers`. -/
+namespace Fast
+open MockExchange.Spec (Ev debited spends required balance fundsOk respond fillOf tradesSince accepted)
+
+/-- What the accepted orders have spent, per asset. -/
+def debitsOf (c : Cfg) (acc : List Ev) : List Rat :=
+  (List.range c.init.length).map (debited c.fee c.instruments acc)
+
+def pushGo (sp : Option Nat) (rq : Rat) : Nat → List Rat → List Rat
+  | _, [] => []
+  | a, d :: ds => ((if sp = some a then rq else 0) + d) :: pushGo sp rq (a + 1) ds
+
+/-- `debitsOf` after one more accepted order. -/
+def debitsPush (c : Cfg) (e : Ev) (debs : List Rat) : List Rat :=
+  pushGo (spends c.instruments e.req) (required c.fee e.req) 0 debs
+
+theorem pushGo_range' (fee : Rat) (ins : List Instr) (e : Ev) (acc : List Ev) (n : Nat) : ∀ a : Nat,
+    pushGo (spends ins e.req) (required fee e.req) a ((List.range' a n).map (debited fee ins acc)) =
+      (List.range' a n).map (debited fee ins (e :: acc)) := by
+  induction n with
+  | zero => intro a; rfl
+  | succ n ih => intro a; simp only [List.range'_succ, List.map_cons, pushGo, ih, debited]
+
+theorem debitsOf_cons (c : Cfg) (e : Ev) (acc : List Ev) :
+    debitsOf c (e :: acc) = debitsPush c e (debitsOf c acc) := by
+  simp only [debitsOf, debitsPush, List.range_eq_range', pushGo_range']
+
+def balanceD (c : Cfg) (debs : List Rat) (a : Nat) : Option Rat :=
+  match c.init[a]?, debs[a]? with
+  | some p, some d => some (p.2 - d)
+  | _, _ => none
+
+theorem balanceD_eq (c : Cfg) (acc : List Ev) (a : Nat) : balanceD c (debitsOf c acc) a = balance c acc a := by
+  unfold balanceD balance debitsOf
+  cases h : c.init[a]? with
+  | none => simp
+  | some p =>
+    have hlt : a < c.init.length := (List.getElem?_eq_some_iff.mp h).1
+    simp [List.getElem?_map, List.getElem?_range hlt]
+
+def fundsOkD (c : Cfg) (debs : List Rat) (r : Req) : Bool :=
+  r.kind == .market &&
+  match spends c.instruments r with
+  | none => false
+  | some a =>
+    match balanceD c debs a with
+    | none => false
+    | some b => decide (required c.fee r ≤ b)
+
+theorem fundsOkD_eq (c : Cfg) (acc : List Ev) (r : Req) : fundsOkD c (debitsOf c acc) r = fundsOk c acc r := by
+  simp only [fundsOkD, fundsOk, balanceD_eq] <;> rfl
+
+def respondD (c : Cfg) (n : Nat) (debs : List Rat) (e : Ev) : Option (Nat × Rat × Trade) :=
+  if fundsOkD c debs e.req then
+    match spends c.instruments e.req with
+    | none => none
+    | some a =>
+      match balanceD c debs a with
+      | none => none
+      | some b => some (a, b - required c.fee e.req, fillOf c n e)
+  else none
+
+theorem respondD_eq (c : Cfg) (acc : List Ev) (e : Ev) :
+    respondD c acc.length (debitsOf c acc) e = respond c acc e := by
+  simp only [respondD, respond, fundsOkD_eq, balanceD_eq] <;> rfl
+
+def ledgerD (c : Cfg) (debs : List Rat) : List (Rat × Rat) :=
+  (List.range c.init.length).map fun a =>
+    match balanceD c debs a with
+    | some b => (b, b)
+    | none => (0, 0)
+
+theorem ledgerD_eq (c : Cfg) (acc : List Ev) : ledgerD c (debitsOf c acc) = MockExchange.Spec.ledger c acc := by
+  simp only [ledgerD, MockExchange.Spec.ledger, balanceD_eq] <;> rfl
+
+/-- `answer` from the accepted orders `acc` and their debits `debs`. -/
+def answerD (c : XCfg) (acc : List Ev) (debs : List Rat) (t : Int) (rq : Request) : Answer :=
+  let te := exchTime c t
+  match rq with
+  | .fetchSnapshot => .snapshot (ledgerD c.base debs) te (groups (ordersAt c te))
+  | .fetchBalances => .balances (ledgerD c.base debs) te
+  | .fetchOrdersOpen => .orders (openAt c te)
+  | .fetchTrades since => .trades (tradesSince c.base acc since)
+  | .cancelOrder => .unsupported
+  | .openOrder r =>
+    match respondD c.base acc.length debs ⟨te, r⟩ with
+    | some (a, b, tr) => .filled acc.length te r.qty a b tr
+    | none => .rejected
+
+theorem answerD_eq (c : XCfg) (hist : List (Int × Request)) (t : Int) (rq : Request) :
+    answerD c (accepted c.base (seenOpens c hist)) (debitsOf c.base (accepted c.base (seenOpens c hist))) t rq =
+      answer c hist t rq := by
+  simp only [answerD, answer, ledgerD_eq, respondD_eq] <;> rfl
+
+theorem seenOpens_append (c : XCfg) (a b : List (Int × Request)) :
+    seenOpens c (a ++ b) = seenOpens c b ++ seenOpens c a := by
+  induction a with
+  | nil => simp [seenOpens]
+  | cons op a ih =>
+    obtain ⟨t, rq⟩ := op
+    cases rq <;> simp [seenOpens, ih]
+
+/-- One pass over the requests seen, carrying the accepted orders so far and their debits. -/
+def answersGo (c : XCfg) : List Seen → List Ev → List Rat → List (Seen × Answer) → List (Seen × Answer)
+  | [], _, _, out => out.reverse
+  | e :: es, acc, debs, out =>
+    let out := (e, answerD c acc debs e.t e.rq) :: out
+    match e.rq with
+    | .openOrder r =>
+      if fundsOkD c.base debs r then
+        answersGo c es (⟨exchTime c e.t, r⟩ :: acc) (debitsPush c.base ⟨exchTime c e.t, r⟩ debs) out
+      else answersGo c es acc debs out
+    | _ => answersGo c es acc debs out
+
+def histOf (l : List Seen) : List (Int × Request) := l.map fun e => (e.t, e.rq)
+
+theorem answersGo_eq (c : XCfg) : ∀ (es pre : List Seen) (out : List (Seen × Answer)),
+    answersGo c es (accepted c.base (seenOpens c (histOf pre)))
+        (debitsOf c.base (accepted c.base (seenOpens c (histOf pre)))) out =
+      out.reverse ++ (es.zipIdx pre.length).map fun ek =>
+        (ek.1, answer c (histOf ((pre ++ es).take ek.2)) ek.1.t ek.1.rq) := by
+  intro es
+  induction es with
+  | nil => intro pre out; simp [answersGo]
+  | cons e es ih =>
+    intro pre out
+    have hpre : pre ++ e :: es = (pre ++ [e]) ++ es := by simp
+    have key : ∀ acc' , acc' = accepted c.base (seenOpens c (histOf (pre ++ [e]))) →
+        answersGo c es acc' (debitsOf c.base acc') ((e, answerD c (accepted c.base (seenOpens c (histOf pre)))
+            (debitsOf c.base (accepted c.base (seenOpens c (histOf pre)))) e.t e.rq) :: out) =
+          out.reverse ++ ((e :: es).zipIdx pre.length).map fun ek =>
+            (ek.1, answer c (histOf ((pre ++ e :: es).take ek.2)) ek.1.t ek.1.rq) := by
+      intro acc' hacc
+      subst hacc
+      rw [ih (pre ++ [e]), hpre, answerD_eq]
+      simp only [List.zipIdx_cons, List.map_cons, List.reverse_cons, List.append_assoc, List.singleton_append,
+        List.length_append, List.length_singleton, List.take_left]
+    have hso : seenOpens c (histOf (pre ++ [e])) =
+        seenOpens c [(e.t, e.rq)] ++ seenOpens c (histOf pre) := by
+      simp only [histOf, List.map_append, seenOpens_append]; rfl
+    unfold answersGo
+    cases hrq : e.rq with
+    | openOrder r =>
+      simp only [fundsOkD_eq]
+      have hs1 : seenOpens c [(e.t, e.rq)] = [⟨exchTime c e.t, r⟩] := by rw [hrq]; rfl
+      rw [hs1] at hso
+      split
+      · next hf =>
+        rw [← debitsOf_cons, ← hrq]
+        apply key
+        rw [hso]; simp only [List.singleton_append, accepted, hf, if_true]
+      · next hf =>
+        rw [← hrq]
+        apply key
+        rw [hso]; simp only [List.singleton_append, accepted, hf]; rfl
+    | _ =>
+      simp only
+      rw [← hrq]
+      apply key
+      rw [hso, hrq]; rfl
+
+/-- `SSys.answers` in one pass. -/
+def answersFast (s : SSys) : List (Seen × Answer) :=
+  answersGo s.cfg s.seen [] (debitsOf s.cfg.base []) []
+
+@[csimp] theorem answers_eq_fast : @SSys.answers = @answersFast := by
+  funext s
+  have h := answersGo_eq s.cfg s.seen [] []
+  simp only [histOf, List.map_nil, seenOpens, accepted, List.length_nil, List.nil_append, List.reverse_nil] at h
+  unfold answersFast SSys.answers
+  rw [h]
+
+end Fast
+
 /-- A request seen at `at_` has its answer and notifications delivered at `at_ + latency`. -/
 def SSys.delivered (s : SSys) (e : Seen) : Bool := decide (e.at_ + s.cfg.base.latency ≤ s.now)
 
@@ -722,6 +905,41 @@ def SSys.finish (s : SSys) : SSys × List SDone :=
       match w with
       | some p => if (s.ending p).isSome then none else some p
       | none => none }, ends)
+
+/-! ### Compiled-code twin of `SSys.finish` (no part of the specification)
+
+`SSys.finish` asks `SSys.ending` twice per waiting worker and every `ending` evaluates `SSys.answers`. The
+executable below evaluates the answers at most ONCE per `finish` (a `Thunk`: not at all when no worker waits);
+`Fast.finish_eq_fast` (`@[csimp]`, proved by unfolding) makes compiled code use it. -/
+namespace Fast
+
+/-- `SSys.ending` with the answers handed in. -/
+def endingWith (s : SSys) (as : List (Seen × Answer)) (p : Pending) : Option Ending :=
+  match as.find? fun ea => ea.1.call == p.call with
+  | some (e, a) =>
+    if a = .unsupported then some .failed
+    else if s.delivered e then some (.answered a) else none
+  | none => if s.alive then none else some .failed
+
+theorem ending_eq_with (s : SSys) (p : Pending) : s.ending p = endingWith s s.answers p := rfl
+
+/-- `SSys.finish` with the answers evaluated at most once. -/
+def finishFast (s : SSys) : SSys × List SDone :=
+  let as : Thunk (List (Seen × Answer)) := Thunk.mk fun _ => s.answers
+  let ends := (s.workers.zipIdx).filterMap fun (w, i) =>
+    match w with
+    | some p => (endingWith s as.get p).map fun e => (⟨i, p.call, s.now - p.started, e⟩ : SDone)
+    | none => none
+  ({ s with workers := s.workers.map fun w =>
+      match w with
+      | some p => if (endingWith s as.get p).isSome then none else some p
+      | none => none }, ends)
+
+@[csimp] theorem finish_eq_fast : @SSys.finish = @finishFast := by
+  funext s
+  rfl
+
+end Fast
 
 def SSys.settle (s : SSys) : SSys × List SDone := s.see.finish
 
